@@ -66,10 +66,12 @@ var c16Defaults = []c16Default{
 	{&ast.Value{Kind: ast.ListValue, Children: ast.ChildValueList{{Value: &ast.Value{Raw: "1", Kind: ast.IntValue}}, {Value: &ast.Value{Raw: "null", Kind: ast.NullValue}}}}, "[1,null]"},
 	{&ast.Value{Kind: ast.ObjectValue, Children: ast.ChildValueList{{Name: "a", Value: &ast.Value{Raw: "1", Kind: ast.IntValue}}}}, "{a:1}"},
 	{&ast.Value{Kind: ast.ListValue}, "[]"},
+	{&ast.Value{Kind: ast.ObjectValue}, "{}"},
 }
 
 func c16PickDefault(name string) c16Default {
-	return c16Defaults[zzsym.Choice("default:"+name, zzsym.Param("defaults", 3))]
+	// how many literal kinds this element ranges over: its own bound if one is given ("defaults:<element>"), else the common one
+	return c16Defaults[zzsym.Choice("default:"+name, zzsym.Param("defaults:"+name, zzsym.Param("defaults", 3)))]
 }
 
 func c16CheckDefault(d c16Default, got *string, what string) {
